@@ -310,17 +310,15 @@ the working copy `a` (and on the empty labelled peptide) the mass is
 ion-type adjustment plus the labelled charge carriers — depends on the ion type **and the charge** (with `<D>` the
 charge-carrying hydrogens are labelled too), and nothing else. -/
 structure LabelledDecomposes (cm : CompMassFn) (menv : Pept.Env) (mono : Bool) (a : Annotation)
-    (w : Char → Rat) (mw : Mod → Rat) (O : Chem.Key → Int → Rat) (neutron : Rat) : Prop where
-  slices : ∀ (s e : Int) (t : Chem.Key) (c iso : Int) (loss : Rat),
+    (w : Char → Rat) (mw : Mod → Rat) (t : Chem.Key) (O : Int → Rat) (neutron : Rat) : Prop where
+  /-- as ion type `t`: residues + placed mods + `O charge` + isotope·neutron + loss -/
+  slices : ∀ (s e : Int) (c iso : Int) (loss : Rat),
     massOf cm menv mono (slice a s e) t c iso loss =
-      .ok (plainWeight w mw (slice a s e) + O t c + (iso : Rat) * neutron + loss)
-  blank : ∀ (t : Chem.Key) (c : Int), massOf cm menv mono (blankOf a) t c 0 0 = .ok (O t c)
-  neutral : O ionN 0 = 0
-
-/-- the tables of the fragment model for one ion type (labelled case: the `'n'` entry is 0 as before) -/
-structure TablesAgreeL (P : MassParams) (mono : Bool) (t : Ion) : Prop where
-  neutron : P.neutron = Gen.neutronMass
-  adjN' : P.fragAdjN mono = 0
+      .ok (plainWeight w mw (slice a s e) + O c + (iso : Rat) * neutron + loss)
+  /-- as the neutral species (`ion_type='n'`, charge 0): residues + placed mods, no offset -/
+  comps : ∀ (s e : Int), massOf cm menv mono (slice a s e) ionN 0 0 0 = .ok (plainWeight w mw (slice a s e))
+  /-- the empty labelled peptide as ion type `t`: the offset alone -/
+  blank : ∀ (c : Int), massOf cm menv mono (blankOf a) t c 0 0 = .ok (O c)
 
 /-- **frag_mass_eq_mass_labelled** (no rounding). Let the working copy carry isotope labels, let the label path of `mass`
 decompose as above, let the `k`-th component be `mass(slice(k,k+1), charge=0, ion_type='n')` and let the model's label
@@ -328,9 +326,9 @@ shift be what `_label_shift` computes, **for this ion type and this charge**:
 `labelShift t c = mass(blank, t, c) − adjust_mass(0.0, c, t)`.  Then the ion's mass in the fragment model is
 `mass(slice(s,e), ion_type=t, charge=c, isotope, loss)`. -/
 theorem mkFrag_mass_eq_massWith_labelled (cm : CompMassFn) (menv : Pept.Env) (w : Char → Rat) (mw : Mod → Rat)
-    (O : Chem.Key → Int → Rat) (j : Job) (t : Ion) (s len : Nat) (c iso : Int) (loss : Rat)
+    (O : Int → Rat) (j : Job) (t : Ion) (s len : Nat) (c iso : Int) (loss : Rat)
     (hlab : j.annotation.isotope.isSome = true)
-    (hd : LabelledDecomposes cm menv j.monoisotopic j.annotation w mw O j.env.P.neutron)
+    (hd : LabelledDecomposes cm menv j.monoisotopic j.annotation w mw (keyOfChars t.name) O j.env.P.neutron)
     (hN : j.env.P.fragAdjN j.monoisotopic = 0) (hprec : j.precision = none)
     (hlen : s + (len + 1) ≤ j.annotation.seq.length)
     (hc : ∀ k : Nat, k < j.annotation.seq.length → ∃ x,
@@ -347,14 +345,12 @@ theorem mkFrag_mass_eq_massWith_labelled (cm : CompMassFn) (menv : Pept.Env) (w 
       j.massComponents[k]? = some (plainWeight w mw (slice j.annotation (k : Int) ((k : Int) + 1))) := by
     intro k hk
     obtain ⟨x, hx, hxk⟩ := hc k hk
-    rw [hd.slices] at hx
-    rw [hxk, ← Except.ok.inj hx, hd.neutral]
-    congr 1
-    grind
+    rw [hd.comps] at hx
+    rw [hxk, ← Except.ok.inj hx]
   have hsum := spanSum_eq_plainWeight w mw j.annotation j.massComponents hcomps s len hlen
   obtain ⟨m, hm, hsh⟩ := hshift
   rw [hd.blank] at hm
-  have hm' : m = O (keyOfChars t.name) c := (Except.ok.inj hm).symm
+  have hm' : m = O c := (Except.ok.inj hm).symm
   rw [hd.slices, mass_formula, hprec, hsum]
   simp only [roundOpt, ionBase, labelShift, hlab, Bool.not_true, Bool.false_eq_true, if_false, hsh, hm', hN]
   congr 1
@@ -362,13 +358,13 @@ theorem mkFrag_mass_eq_massWith_labelled (cm : CompMassFn) (menv : Pept.Env) (w 
 
 /-- **Why the shift must be keyed by (ion type, charge)**: if the shift computed for charge `c₀` is used for charge `c`
 (a table keyed by the ion type only), the ion's mass is off by exactly
-`(O t c₀ − O t c) − proton·(c₀ − c)` — zero only if the labelled charge carriers weigh what unlabelled protons weigh. -/
-theorem labelShift_wrong_charge (P : MassParams) (mono : Bool) (t : Ion) (O : Chem.Key → Int → Rat) (c c₀ : Int) :
-    let shift := fun (z : Int) => O (keyOfChars t.name) z -
+`(O c₀ − O c) − proton·(c₀ − c)` — zero only if the labelled charge carriers weigh what unlabelled protons weigh. -/
+theorem labelShift_wrong_charge (P : MassParams) (mono : Bool) (t : Ion) (O : Int → Rat) (c c₀ : Int) :
+    let shift := fun (z : Int) => O z -
       (P.proton * ((z - 1 : Int) : Rat) + P.ionOffset mono t + P.fragAdj mono t)
     (shift c₀ + (P.proton * ((c - 1 : Int) : Rat) + P.ionOffset mono t + P.fragAdj mono t)) -
       (shift c + (P.proton * ((c - 1 : Int) : Rat) + P.ionOffset mono t + P.fragAdj mono t)) =
-      (O (keyOfChars t.name) c₀ - O (keyOfChars t.name) c) - P.proton * (((c₀ - c : Int)) : Rat) := by
+      (O c₀ - O c) - P.proton * (((c₀ - c : Int)) : Rat) := by
   intro shift
   simp only [shift, Rat.intCast_sub]
   grind
